@@ -17,7 +17,7 @@ CHECKS = {
  "C06": ("fault_enumeration", "drop ledger (per-identity drop counters, conservation created = in collections + dropped + explicitly leaked) with a panic injected at every callback index of every history",
          "Every generated history over BumpBox<[T]>, FixedBumpVec, BumpVec, MutBumpVec, MutBumpVecRev (tracked sized and zero-sized elements) is first run dry to count the callbacks the library makes (Clone, PartialEq, Drop, predicates, generators), then re-run with a panic injected at each callback index (strided when there are more than the per-history cap); after every operation - including the one that unwound - no identity may have been dropped twice, none may be owned twice, none may be lost unless the panic came out of a Drop, and at teardown every identity is dropped exactly once (forgotten drains exempt).",
          "DESIGN.md 2/C06"),
- "C07": ("fault_enumeration", "outcome classification (Ok / Err / alloc-error panic / other panic) against the refusals MonAlloc recorded for that operation, then all state oracles; each base-allocator call index refused individually",
+ "C07": ("fault_enumeration", "outcome classification (Ok / Err / alloc-error panic / other panic) against the refusals MonAlloc recorded for that operation, then all state oracles; each base-allocator call index refused individually; plus lock-step arenas whose base allocator starts refusing mid-history, every request through every entry point (try_ forms must return Err, plain entry points must agree)",
          "Arena histories and collection histories (vectors, strings) are run unfaulted to count base-allocator calls, then once per call index with exactly that call refused, plus refuse-from-k, pairs and random refusals; overflowing sizes (reserve(usize::MAX), isize::MAX bytes) are part of the argument generators. try_ methods must return Err without panicking, panicking methods must not return, the failed collection must be unchanged, the arena must still pass the statistics walker and serve an allocation afterwards, nothing may leak.",
          "DESIGN.md 2/C07"),
  "C08": ("exploration", "lock-step std::vec::Vec reference model (values, lengths, returned values, panic occurrence), capacity promises and buffer-address stability",
@@ -26,7 +26,7 @@ CHECKS = {
  "C09": ("exploration", "lock-step std String model + core::str::from_utf8 on the raw bytes after every operation (also after injected panics), decoding constructors against std, C-string byte comparison",
          "BumpBox<str>, FixedBumpString, BumpString, MutBumpString with text mixing 1-4 byte characters, combining marks and NUL; every byte index incl. non-boundaries and len+1; invalid/truncated UTF-8 and lone surrogates for the decoding constructors; retain with a panicking predicate; write! with a failing Display.",
          "DESIGN.md 2/C09"),
- "C15": ("exploration", "per-chunk bump-position vector read through allocator_stats() while an exclusive-borrow collection is filled/dropped/finalised, commit-advance bound, contents vs model; arena-level prepared-slice and *_mut helper operations",
+ "C15": ("exploration", "per-chunk bump-position vector read through allocator_stats() while an exclusive-borrow collection is filled/dropped/finalised, exact commit-advance bound, contents vs model, typed and trait-object allocators, allocated and still unallocated arenas; arena-level prepared-slice and *_mut helper operations",
          "MutBumpVec/MutBumpVecRev/MutBumpString filled over multi-chunk initial states with growth into other chunks, failed reservations, injected panics; positions of all chunks up to the one current at creation must not move until finalisation, which must advance by the content size plus at most alignment padding.",
          "DESIGN.md 2/C15"),
  "C16": ("exploration", "partition model over a population of parts descending from one allocation: contents per part, identity ownership, capacity sums, memory disjointness, sibling integrity after follow-up operations, merge adjacency",
@@ -38,7 +38,7 @@ CHECKS = {
  "C11": ("exploration", "wide-integer (u128) reference specification evaluated next to the real bump_up/bump_down/bump_prepare_up/bump_prepare_down compiled from /repo, on adversarial inputs under every truthful hint combination",
          "The four pure computations are compiled from /repo/src/bumping.rs (#[path], the real source, rebuilt on every check) and compared with a specification written from the statement in arithmetic that cannot overflow; inputs are biased to the edges (addresses next to 0 and to the top of the address space, the negative-capacity dummy range, sizes around the remaining length +-1 and near isize::MAX, alignments up to 2^28, min alignment 1..16); debug builds additionally run the functions' own post-condition asserts and overflow checks, a Miri shard checks the arithmetic's UB-freedom. The input space (~2^200) cannot be enumerated; millions of edge-biased inputs per run is the right level for a pure function whose branches are few and arithmetic.",
          "DESIGN.md 2/C11"),
- "C12": ("exploration", "wide-integer specification of ChunkSizeConfig (hint/size/align_size, fit of the causing layout for every base address and granted size, growth factor, overflow reporting) + MonAlloc event log in the real arena (<=1 base call per allocation, with_capacity/reserve fit)",
+ "C12": ("exploration", "wide-integer specification of ChunkSizeConfig (hint/size/align_size, fit of the causing layout for every base address and granted size, growth factor, overflow reporting) + growth invariant over every adjacent chunk pair of the real arena after every operation + MonAlloc event log in the real arena (<=1 base call per allocation, with_capacity/reserve fit)",
          "Pure part: the real size_config.rs compiled from /repo against a u128 model with synthetic header layouts (size 32..512, alignment 16..256), layouts up to alignment 2^28 and sizes up to the isize limit, over-granting, worst-case base addresses, arbitrary usize hints (overflow must be reported, never wrapped). Arena part: the arena interpreter with an allocation/reserve-heavy mix under all grant policies, where one user allocation may cause at most one base-allocator call and a chunk created for a layout must serve it.",
          "DESIGN.md 2/C12"),
  "C13": ("exploration", "adjacency-aware reclaim expectations (same address after dealloc+alloc, in-place growth) and a monotone monitor on allocated() classified by the operation that ran",
@@ -47,7 +47,7 @@ CHECKS = {
  "C14": ("exploration", "outcome classification of requests on a claimed handle, zero stats, hand-over tuple at guard drop (normal and unwinding)",
          "Claims nested up to 3 deep, scopes and chunk growth inside the claim, probes of the original between guard operations, unwinding out of the claim.",
          "DESIGN.md 2/C14"),
- "C17": ("exploration", "lock-step pair of arenas in identical states: same request through two different entry points, compared on (chunk index, offset in chunk, length, value bytes) and (allocated, count, size, remaining)",
+ "C17": ("exploration", "lock-step pair of arenas in identical states: same request through two different entry points, compared on (chunk index, offset in chunk, length, value bytes) and (allocated, count, size, remaining); requests: 25 typed allocation kinds, BumpVec / MutBumpVec / MutBumpVecRev sessions over every allocator handle, Allocator sessions (grow, grow_zeroed, shrink, deallocate), checkpoint/reset_to, alloc_try_with twins",
          "25 request kinds (typed value/slice/str/fmt/cstr/iter/uninit allocations, the *_mut helpers, reserve, the raw Allocator interface, the BumpAllocatorTyped layout methods) x up to 16 entry points each (inherent forwarders on Bump and BumpScope, the trait implementations reached through BumpScope, &Bump, &BumpScope, &mut, WithoutDealloc, WithoutShrink and the four dyn types; panicking and try_), over 6 settings/base-allocator configurations; entry points whose wrapper changes the meaning of an operation are excluded for that operation only.",
          "DESIGN.md 2/C17"),
  "C19": ("exploration", "concurrent registry of live guards keyed by arena identity (exclusivity), created <= peak-live upper bound, global list of patterned blocks re-read after migration and at the end, thread-safe MonAlloc ledger for reset/reset_to_start/drop, Miri data-race detection with per-shard scheduler seeds (TSan in thorough)",
@@ -70,7 +70,7 @@ m = {
  "engines": [
   {"name": "pure", "path": "harness/src/bin/pure.rs", "serves_properties": ["C11", "C12"], "kind_free_text": "the crate's dependency-free arithmetic files compiled from /repo via #[path] and run against a wide-integer reference specification"},
   {"name": "pool", "path": "harness/src/bin/pool.rs", "serves_properties": ["C19"], "kind_free_text": "multi-threaded stress of the real BumpPool with online monitors and an event log; Miri (race detector) and TSan variants"},
-  {"name": "lockstep", "path": "harness/src/bin/lockstep.rs", "serves_properties": ["C17"], "kind_free_text": "two real arenas driven in lock-step through pairs of entry points, compared after every request"},
+  {"name": "lockstep", "path": "harness/src/bin/lockstep.rs", "serves_properties": ["C17", "C07"], "kind_free_text": "two real arenas driven in lock-step through pairs of entry points (typed requests, collection sessions, allocator sessions, checkpoints), compared after every request; --refuse makes the base allocator refuse from a random operation on"},
   {"name": "coll", "path": "harness/src/bin/coll.rs", "serves_properties": ["C06", "C07", "C08", "C09", "C15", "C16"], "kind_free_text": "generated operation histories on the real collections in lock-step with std reference models, a per-identity drop ledger with injected callback panics, and MonAlloc fault injection"},
   {"name": "arena", "path": "harness/src/bin/arena.rs", "serves_properties": ["C01", "C02", "C03", "C05", "C07", "C10", "C12", "C13", "C14", "C15", "C18"], "kind_free_text": "generated operation histories over the real arena with online monitors (shadow ledger, stats walker, MonAlloc ledger), run natively (debug+release), under Miri, ASan and valgrind"}
  ],
@@ -87,7 +87,7 @@ for pid, (cat, tech, text, ref) in CHECKS.items():
         "thorough_cmd": f"python3 /verif/check.py {pid} --tier thorough",
         "evidence_file": f"/verif/evidence/{pid}.json",
         "replay_cmd_template": f"python3 /verif/check.py {pid} --replay {{path}}",
-        "engine": {"C11": "pure", "C12": "pure+arena", "C06": "coll", "C08": "coll", "C09": "coll", "C16": "coll", "C17": "lockstep", "C19": "pool", "C07": "coll+arena", "C15": "coll+arena"}.get(pid, "arena"),
+        "engine": {"C11": "pure", "C12": "pure+arena", "C06": "coll", "C08": "coll", "C09": "coll", "C16": "coll", "C17": "lockstep", "C19": "pool", "C07": "coll+arena+lockstep", "C15": "coll+arena"}.get(pid, "arena"),
         "level_claimed": {"category": cat, "text": text, "design_ref": ref},
         "level_note": "held on the executions observed (counts in the evidence file); trusts the harness' own oracles, MonAlloc, the nightly toolchain, Miri/ASan/valgrind; paths no workload reached are not covered",
         "technique": tech,
